@@ -258,29 +258,29 @@ theorem natView_eq (log : List (Nat × String)) (c : Nat) (e : Ep) :
   cases (log.filter (fun x => x.1 == c)).getLast? <;> rfl
 
 section system
-variable (cfg : NetCfg) (a anode : String) (aep : Ep) (clients : List (String × String)) (tp : TParams)
+variable (cfg : NetCfg) (accs clients : List (String × String)) (tp : TParams)
 
-/-- **`C13_tcp_views`.** In every reachable state of the open handshake system — the adversary
-    passes SYNs, SYN-ACKs and anything else in flight through NAT hops at will — for every
-    completed accept:
+/-- **`C13_tcp_views`.** In every reachable state of the open handshake system (any number of
+    acceptors, re-opened at will; user cancel / close) — the adversary passes SYNs, SYN-ACKs and
+    anything else in flight through NAT hops at will — for every completed accept `e` of an
+    acceptor listening on `e.lep`:
     * the endpoint reported by accept = the accepted socket's remote endpoint = the connector's
       bound endpoint with the address of the LAST NAT hop its SYN crossed, the original port;
     * the connector's own local endpoint, the endpoint it dialled and its view of the acceptor
       (`remote_endpoint()`) are NOT altered, whatever the SYN-ACK crossed on its way back. -/
-theorem C13_tcp_views (hae : aep ≠ {}) (ls : List HLbl)
-    (hok : HS.okRun a tp (HS.init cfg a anode aep clients) ls) :
-    let s := HS.run a tp (HS.init cfg a anode aep clients) ls
+theorem C13_tcp_views (ls : List HLbl) (hok : HS.okRun tp (HS.init cfg accs clients) ls) :
+    let s := HS.run tp (HS.init cfg accs clients) ls
     ∀ e ∈ s.accLog, ∃ op c ch d,
       e.op = some op ∧ e.cid = some c ∧ s.net.chans[c]? = some ch ∧ s.dialLog[c]? = some d
       ∧ ch.vis0 = { d.ep0 with addr := (((s.natLog.filter (fun x => x.1 == c)).getLast?).map (·.2)).getD d.ep0.addr }
       ∧ e.compl.extra = (if op.withEp then "ep=" ++ ch.vis0.toString else "")
       ∧ (∀ sk, s.net.tcp? op.peer = some sk → sk.chan = some c → ch.vis (ch.remoteIdx sk.bound) = ch.vis0)
-      ∧ ch.ep0 = d.ep0 ∧ ch.vis1 = aep ∧ d.target = aep
+      ∧ ch.ep0 = d.ep0 ∧ ch.vis1 = e.lep ∧ d.target = e.lep
       ∧ (∀ o sk, s.net.tcp? o = some sk → sk.chan = some c → sk.bound = ch.ep0 →
-            sk.bound = d.ep0 ∧ ch.vis (ch.remoteIdx sk.bound) = aep) := by
+            sk.bound = d.ep0 ∧ ch.vis (ch.remoteIdx sk.bound) = e.lep) := by
   intro s e he
-  obtain ⟨op, c, ch, d, q1, q2, q3, q4, _, _, _, q8, q9, q10, _, q12, q13, q14, q15, _⟩ :=
-    C07_views cfg a anode aep clients tp hae ls hok e he
+  obtain ⟨op, c, ch, d, q1, q2, q3, q4, _, _, _, q8, q9, _, q10, _, q12, q13, q14, q15, _⟩ :=
+    C07_views cfg accs clients tp ls hok e he
   refine ⟨op, c, ch, d, q1, q2, q3, q4, by rw [q15, natView_eq], q8, fun sk h1 h2 => (q14 sk h1 h2).2, q10,
     by rw [q12, q9], q9, ?_⟩
   intro o sk h1 h2 h3
@@ -288,13 +288,12 @@ theorem C13_tcp_views (hae : aep ≠ {}) (ls : List HLbl)
 
 /-- **`C13_no_nat_real_address`** (TCP): a connector whose SYN crossed no NAT is seen with its
     real bound endpoint. -/
-theorem C13_tcp_no_nat_real_address (hae : aep ≠ {}) (ls : List HLbl)
-    (hok : HS.okRun a tp (HS.init cfg a anode aep clients) ls) :
-    let s := HS.run a tp (HS.init cfg a anode aep clients) ls
+theorem C13_tcp_no_nat_real_address (ls : List HLbl) (hok : HS.okRun tp (HS.init cfg accs clients) ls) :
+    let s := HS.run tp (HS.init cfg accs clients) ls
     ∀ e ∈ s.accLog, ∀ c ch d, e.cid = some c → s.net.chans[c]? = some ch → s.dialLog[c]? = some d →
       (∀ x ∈ s.natLog, x.1 ≠ c) → ch.vis0 = d.ep0 := by
   intro s e he c ch d hc hch hd hno
-  obtain ⟨op, c', ch', d', _, q2, q3, q4, q5, _⟩ := C13_tcp_views cfg a anode aep clients tp hae ls hok e he
+  obtain ⟨op, c', ch', d', _, q2, q3, q4, q5, _⟩ := C13_tcp_views cfg accs clients tp ls hok e he
   rw [hc] at q2; cases q2
   rw [hch] at q3; cases q3
   rw [hd] at q4; cases q4
@@ -305,21 +304,25 @@ theorem C13_tcp_no_nat_real_address (hae : aep ≠ {}) (ls : List HLbl)
 
 end system
 
-/-- the example history of Props/C07 (s2's SYN crosses NAT 99.0.0.9, s1's none): accept reports
-    `99.0.0.9:2002` for s2 and the accepted socket for s1 sees the real `10.0.1.1:2001`; both
-    connectors see the acceptor as `10.0.0.1:8000` -/
+set_option maxRecDepth 100000 in
+/-- the example history of Props/C07 (s2's SYN crosses NAT 99.0.0.9, the others none): accept
+    reports `99.0.0.9:2002` for s2 and the accepted socket for s1 sees the real `10.0.1.1:2001`;
+    the connectors see the acceptors as `10.0.0.1:8000` / `10.0.0.2:9000` -/
 example : HEx.fin.net.chans.map (fun c => (c.ep0.toString, c.vis0.toString, c.vis1.toString))
-    = [("10.0.1.1:2001", "10.0.1.1:2001", "10.0.0.1:8000"), ("10.0.1.1:2002", "99.0.0.9:2002", "10.0.0.1:8000")] := by
+    = [("10.0.1.1:2001", "10.0.1.1:2001", "10.0.0.1:8000"), ("10.0.1.1:2002", "99.0.0.9:2002", "10.0.0.1:8000"),
+       ("10.0.1.1:2003", "10.0.1.1:2003", "10.0.0.2:9000"), ("10.0.1.1:7000", "10.0.1.1:7000", "10.0.0.2:9000")] := by
   decide
 
-/-- the SYN-ACK of channel 1 crossing a NAT on the acceptor's side changes no view (repaired
+set_option maxRecDepth 100000 in
+/-- the SYN-ACK of channel 0 crossing a NAT on the acceptor's side changes no view (repaired
     behaviour), and the theorems above cover such histories -/
-example : ((HS.run "a0" {} HEx.init
-      [.listen 5, .connect "s1" HEx.aep 1, .natRewrite 0 "99.0.0.9", .deliverSyn 0, .accept (.into 10 "s0" true),
+example : ((HS.run {} HEx.init
+      [.openAcc "a0" true, .bind "a0" HEx.aep, .listen "a0" 5, .connect "s1" HEx.aep 1, .natRewrite 0 "99.0.0.9",
+       .deliverSyn 0 "a0", .accept "a0" (.into 10 "s0" true),
        .natRewrite 0 "99.0.0.2", .deliverSynAck 0 "s1"]).net.chans.map (fun c => (c.vis0.toString, c.vis1.toString)))
     = [("99.0.0.9:2000", "10.0.0.1:8000")] := by decide
 
-example := C13_tcp_views HEx.cfg "a0" "n0" HEx.aep HEx.clients {} (by decide) HEx.hist (HS.okRun_of_okRunB _ _ (by decide))
+example := C13_tcp_views HEx.cfg HEx.accs HEx.clients {} HEx.hist HEx.hist_ok
 
 /-- a datagram through two NAT hops: the receiver is told the LAST external address, port 6000 -/
 example : (natChain ["99.0.0.1", "99.0.0.7"] { id := 0, src := "10.0.0.1:6000", payload := [1, 2, 3], len := 3 } []).1.src
